@@ -131,12 +131,30 @@ MaxMagComputed(ty, neg) ==
   IF Signed(ty) THEN (IF neg THEN Pow2Big(Bits(ty) - 1) ELSE BigPred(Pow2Big(Bits(ty) - 1)))
   ELSE BigPred(Pow2Big(Bits(ty)))
 
+(* The context: ctx is the type the surrounding program requires at the place *)
+(* of the literal, pos (optional field, default "ret") is the kind of place:  *)
+(*   "ret"  fn f() -> ctx { LIT }                                             *)
+(*   "let"  fn f() -> ctx { let x: ctx = LIT; x }                             *)
+(*   "arg"  fn id(x: ctx) -> ctx { x }  fn f() -> ctx { id(LIT) }             *)
+(* The denotation does not depend on pos.                                     *)
+AllTypes == IntTypes \cup FloatTypes
+PosForms == {"ret", "let", "arg"}
+PosOk(sp) == "pos" \in DOMAIN sp => sp.pos \in PosForms
+
+(* "integer literals can end with the type of the integer, such as `10u8`",  *)
+(* "... such as `10.2f32`": a suffixed literal has exactly the type named by *)
+(* its suffix, whatever the spelling of the digits (`10f64`, `1_0f64`,       *)
+(* `10_f64`, `10.0f64`, `1e1f64`).  Where the context requires another type  *)
+(* the program is ill typed and must not compile.                            *)
+SuffixMismatch(sp) == sp.suf # "" /\ sp.suf # sp.ctx
+
 IntWellFormed(sp) ==
   /\ Len(sp.ds) >= 1
   /\ IF sp.radix = "dec" THEN sp.ds[1] \in DecSyms /\ AllIn(sp.ds, DecSyms \cup {"_"})
      ELSE AllIn(sp.ds, HexSyms) /\ sp.suf = ""
-  /\ sp.suf \in IntTypes \cup FloatTypes \cup {""}
-  /\ (sp.suf # "" => sp.suf = sp.ctx)
+  /\ sp.suf \in AllTypes \cup {""}
+  /\ sp.ctx \in AllTypes
+  /\ PosOk(sp)
 
 IntV(neg, mag) == [neg |-> neg /\ ~BigZero(mag), mag |-> mag]
 
@@ -153,8 +171,8 @@ FloatWellFormed(sp) ==
   /\ AllIn(sp.ed, DecSyms \cup {"_"})
   /\ (sp.ex = "" => sp.es = "" /\ sp.ed = <<>>)
   /\ (sp.ex # "" => NoUnderscore(sp.ed) # <<>>)
-  /\ sp.suf \in FloatTypes \cup {""} /\ (sp.suf # "" => sp.suf = sp.ctx) /\ sp.ctx \in FloatTypes
-  /\ (sp.dot \/ sp.ex # "" \/ sp.suf # "")           \* otherwise it is an integer literal
+  /\ sp.suf \in AllTypes \cup {""} /\ sp.ctx \in AllTypes /\ PosOk(sp)
+  /\ (sp.dot \/ sp.ex # "" \/ sp.suf \in FloatTypes)    \* otherwise it is an integer literal
   /\ (sp.dot /\ sp.fp = <<>> => sp.ex = "" /\ sp.suf = "")   \* `10.` ; `10.e5` / `10.f64` are field accesses
 
 RECURSIVE DivBy5(_, _)
@@ -183,6 +201,9 @@ FloatV(neg, d) == [neg |-> neg, zero |-> d.zero, m |-> d.m, k |-> d.k]
 
 DenoteFloat(sp) ==
   IF ~FloatWellFormed(sp) THEN NoClaim
+  ELSE IF SuffixMismatch(sp) THEN Reject("suffix-type-mismatch")   \* `1.5f64` where an f32 / an integer is required
+  ELSE IF sp.suf \in IntTypes THEN NoClaim                         \* `1.5u8` where a u8 is required: manual silent
+  ELSE IF sp.ctx \in IntTypes THEN Reject("float-literal-in-integer-context")   \* `.`, `e`, `E` make it a float literal
   ELSE LET fd == NoUnderscore(sp.fp)
            D  == BigOf(NoUnderscore(sp.ip) \o fd, 10)
            e  == SmallVal(NoUnderscore(sp.ed), 10, 0)
@@ -192,6 +213,7 @@ DenoteFloat(sp) ==
 
 DenoteInt(sp) ==
   IF ~IntWellFormed(sp) THEN NoClaim
+  ELSE IF SuffixMismatch(sp) THEN Reject("suffix-type-mismatch")   \* `10f64` where an f32 is required, `10u8` as u16, ...
   ELSE LET mag == BigOf(NoUnderscore(sp.ds), IF sp.radix = "hex" THEN 16 ELSE 10)
        IN IF sp.ctx \in FloatTypes
           THEN (* `2f64`: an integer token with a float suffix is a float literal *)
@@ -387,6 +409,141 @@ DenoteTrivia(sp) ==
   THEN Val(IntV(FALSE, BigOf(sp.val, 10))) ELSE NoClaim
 
 -----------------------------------------------------------------------------
+(* Programs with trivia (manual: "Shebang", "Comments")                     *)
+(*   [fam |-> "prog", ps |-> sequence of pieces]     text = the texts of    *)
+(*   the pieces one after the other, NOTHING is added at the end (so the    *)
+(*   input ends with a line end only if the last piece is one)              *)
+(*   piece [k |-> "t", t]        a token: fn i32 ( ) -> { } or a name f g h *)
+(*         [k |-> "d", ds]       a number (decimal symbols)                 *)
+(*         [k |-> "ws", w]       white space: sp tab nl crlf                *)
+(*         [k |-> "com", body]   `//` followed by a text without line end   *)
+(*         [k |-> "sheb", body]  `#!` followed by a text without line end   *)
+(* "Comments start with // and continue until the end of the line.  They    *)
+(* can be inserted anywhere in the script and are ignored": after a com     *)
+(* piece everything up to the next line end - or up to the end of the input *)
+(* when there is none - is comment, in particular token pieces (commented-  *)
+(* out code) and further com / sheb pieces.  "The first line is allowed to  *)
+(* be a shebang; if it starts with #! then it will be ignored": the same    *)
+(* for a sheb piece that is the very first piece.  What is left is the      *)
+(* program: here a sequence of items `fn NAME ( ) -> i32 { NUMBER }`; it    *)
+(* denotes, for every name of ProbeNames, the number its function returns   *)
+(* or "no such function".  Commented-out items define nothing.              *)
+ProbeNames == <<"f", "g", "h">>
+NameToks   == {"f", "g", "h"}
+WordToks   == {"fn", "i32"} \cup NameToks
+PunctToks  == {"(", ")", "->", "{", "}"}
+WsForms    == {"sp", "tab", "nl", "crlf"}
+LineEnds   == {"nl", "crlf"}
+(* opaque comment / shebang texts (python knows the characters; none contains a line end) *)
+(*   item_g = ` fn g() -> i32 { 2 }`  item_f = ` fn f() -> i32 { 9 }`  (text that would be a valid item) *)
+ComBodies  == {"empty", "plain", "utf8", "quotes", "code", "slashes", "item_g", "item_f", "shebang"}
+ShebBodies == {"path", "args", "utf8", "space", "bare", "item_g"}
+
+Tk(t)   == [k |-> "t", t |-> t]
+Dg(ds)  == [k |-> "d", ds |-> ds]
+Ws(w)   == [k |-> "ws", w |-> w]
+Com(b)  == [k |-> "com", body |-> b]
+Sheb(b) == [k |-> "sheb", body |-> b]
+
+PieceOk(p) ==
+  CASE p.k = "t"    -> p.t \in WordToks \cup PunctToks
+    [] p.k = "d"    -> Len(p.ds) \in 1..3 /\ AllIn(p.ds, DecSyms)
+    [] p.k = "ws"   -> p.w \in WsForms
+    [] p.k = "com"  -> p.body \in ComBodies
+    [] p.k = "sheb" -> p.body \in ShebBodies
+    [] OTHER -> FALSE
+
+IsLineEnd(p) == p.k = "ws" /\ p.w \in LineEnds
+IsT(p, t)    == p.k = "t" /\ p.t = t
+IsWord(p)    == p.k = "d" \/ (p.k = "t" /\ p.t \in WordToks)
+
+(* the one state machine: md[i] = [m |-> mode in which piece i is read,     *)
+(* n |-> mode after it], modes "code" | "com" | "sheb"                      *)
+RECURSIVE ModesOf(_, _, _)
+ModesOf(ps, i, m) ==
+  IF i > Len(ps) THEN <<>>
+  ELSE LET p == ps[i]
+           nx == IF m # "code" THEN (IF IsLineEnd(p) THEN "code" ELSE m)
+                 ELSE IF p.k = "com" THEN "com"
+                 ELSE IF p.k = "sheb" /\ i = 1 THEN "sheb"
+                 ELSE "code"
+       IN <<[m |-> m, n |-> nx]>> \o ModesOf(ps, i + 1, nx)
+
+(* the pieces that are not ignored: read in code mode and not opening a     *)
+(* comment, or the line end that closes a comment                           *)
+CodeOf(ps) ==
+  LET md == ModesOf(ps, 1, "code")
+      tagged == [i \in 1..Len(ps) |-> [p |-> ps[i], keep |-> md[i].n = "code"]]
+      kept == SelectSeq(tagged, LAMBDA x : x.keep)
+  IN [i \in 1..Len(kept) |-> kept[i].p]
+
+Glued(code) == \E i \in 1..(Len(code) - 1) : IsWord(code[i]) /\ IsWord(code[i + 1])   \* `fnf`, `7i32`: other tokens
+ProgToksOf(code) == SelectSeq(code, LAMBDA p : p.k # "ws")
+ItemAt(toks, j) == SubSeq(toks, 9 * j - 8, 9 * j)
+IsItem(g) ==
+  /\ IsT(g[1], "fn") /\ g[2].k = "t" /\ g[2].t \in NameToks /\ IsT(g[3], "(") /\ IsT(g[4], ")")
+  /\ IsT(g[5], "->") /\ IsT(g[6], "i32") /\ IsT(g[7], "{") /\ g[8].k = "d" /\ IsT(g[9], "}")
+
+Defined(mag) == [def |-> TRUE, neg |-> FALSE, mag |-> mag]
+Undefined    == [def |-> FALSE, neg |-> FALSE, mag |-> <<>>]
+
+ProgShapeOk(sp) == \A i \in 1..Len(sp.ps) : PieceOk(sp.ps[i])
+DenoteProg(sp) ==
+  IF ~ProgShapeOk(sp) THEN NoClaim
+  ELSE LET code == CodeOf(sp.ps)
+           toks == ProgToksOf(code)
+           n    == Len(toks) \div 9
+       IN IF \E i \in 1..Len(code) : code[i].k = "sheb" THEN NoClaim         \* `#!` elsewhere than at the very start: manual silent
+          ELSE IF Glued(code) THEN NoClaim
+          ELSE IF Len(toks) % 9 # 0 \/ (\E j \in 1..n : ~IsItem(ItemAt(toks, j))) THEN NoClaim   \* not a sequence of whole items
+          ELSE IF \E a, b \in 1..n : a # b /\ ItemAt(toks, a)[2].t = ItemAt(toks, b)[2].t THEN NoClaim   \* defined twice
+          ELSE Val([q \in 1..Len(ProbeNames) |->
+                      IF \E j \in 1..n : ItemAt(toks, j)[2].t = ProbeNames[q]
+                      THEN LET j == CHOOSE j \in 1..n : ItemAt(toks, j)[2].t = ProbeNames[q]
+                           IN Defined(BigOf(ItemAt(toks, j)[8].ds, 10))
+                      ELSE Undefined])
+
+(* What a program spelling exercises (computed here, from the same state    *)
+(* machine, so that the check can require every class to occur):            *)
+(*   eof:*            how the input ends: empty | in-comment | in-shebang | *)
+(*                    line-end | blank (other white space) | token          *)
+(*   eof-comment:B    the comment the input ends in was opened by body B    *)
+(*   eof-comment:item-tokens   ... and contains a commented-out `fn` token  *)
+(*   com:B sheb:B ws:W     forms used (comments opened in code mode)        *)
+(*   comment-after:T  a comment opens behind token T (start = no token yet) *)
+(*   commented:item-tokens / commented:defined-name / commented:undefined-name *)
+(*   items:N          number of live items                                  *)
+TokName(p) == IF p.k = "d" THEN "number" ELSE IF p.t \in NameToks THEN "name" ELSE p.t
+ProgFeatures(sp) ==
+  LET ps == sp.ps
+      L  == Len(ps)
+      md == ModesOf(ps, 1, "code")
+      endm == IF L = 0 THEN "code" ELSE md[L].n
+      Opens(i) == md[i].m = "code" /\ md[i].n = "com"
+      InCom(i) == md[i].m = "com" /\ md[i].n = "com"
+      LastOpen == IF endm = "com" THEN CHOOSE i \in 1..L : Opens(i) /\ \A j \in (i + 1)..L : ~Opens(j) ELSE 0
+      LiveBefore(i) == {j \in 1..(i - 1) : md[j].m = "code" /\ md[j].n = "code" /\ ps[j].k \in {"t", "d"}}
+      PrevTok(i) == IF LiveBefore(i) = {} THEN "start"
+                    ELSE TokName(ps[CHOOSE j \in LiveBefore(i) : \A j2 \in LiveBefore(i) : j2 <= j])
+      code == CodeOf(ps)
+      toks == ProgToksOf(code)
+      LiveNames == {toks[j].t : j \in {x \in 1..Len(toks) : toks[x].k = "t" /\ toks[x].t \in NameToks}}
+      ComNames == {ps[i].t : i \in {x \in 1..L : InCom(x) /\ ps[x].k = "t" /\ ps[x].t \in NameToks}}
+  IN {"eof:" \o (IF L = 0 THEN "empty" ELSE IF endm = "com" THEN "in-comment" ELSE IF endm = "sheb" THEN "in-shebang"
+                 ELSE IF IsLineEnd(ps[L]) THEN "line-end" ELSE IF ps[L].k = "ws" THEN "blank" ELSE "token")}
+     \cup (IF endm = "com" THEN {"eof-comment:" \o ps[LastOpen].body} ELSE {})
+     \cup (IF endm = "com" /\ \E i \in (LastOpen + 1)..L : IsT(ps[i], "fn") THEN {"eof-comment:item-tokens"} ELSE {})
+     \cup {"com:" \o ps[i].body : i \in {x \in 1..L : Opens(x)}}
+     \cup (IF L >= 1 /\ ps[1].k = "sheb" THEN {"sheb:" \o ps[1].body} ELSE {})
+     \cup {"ws:" \o ps[i].w : i \in {x \in 1..L : ps[x].k = "ws"}}
+     \cup {"comment-after:" \o PrevTok(i) : i \in {x \in 1..L : Opens(x)}}
+     \cup (IF \E i \in 1..L : InCom(i) /\ IsT(ps[i], "fn") THEN {"commented:item-tokens"} ELSE {})
+     \cup (IF ComNames \cap LiveNames # {} THEN {"commented:defined-name"} ELSE {})
+     \cup (IF ComNames \ LiveNames # {} THEN {"commented:undefined-name"} ELSE {})
+     \cup (IF Len(toks) % 9 = 0 THEN {"items:" \o ToString(Len(toks) \div 9)} ELSE {})
+Features(sp) == IF sp.fam = "prog" /\ ProgShapeOk(sp) THEN ProgFeatures(sp) ELSE {}
+
+-----------------------------------------------------------------------------
 Denote(sp) ==
   CASE sp.fam = "int"   -> DenoteInt(sp)
     [] sp.fam = "float" -> DenoteFloat(sp)
@@ -396,6 +553,7 @@ Denote(sp) ==
     [] sp.fam = "asn"   -> DenoteAsn(sp)
     [] sp.fam \in {"ident", "word"} -> DenoteIdent(sp)
     [] sp.fam = "trivia" -> DenoteTrivia(sp)
+    [] sp.fam = "prog"   -> DenoteProg(sp)
 
 -----------------------------------------------------------------------------
 (* Token shape: the sequence of [kind, bytes] the lexer must produce for    *)
